@@ -59,6 +59,16 @@ IsoScenarios ==
          [dH |-> DHs[h], temps |-> Ordered(subs[s], OrderKinds[o]), order |-> OrderKinds[o], gen |-> Generators[g], kind |-> Kinds[k], units |-> UnitConfigs[u],
           pmag |-> LET m == PMags[((h + s + o + g + k + u) % 4) + 1] IN IF UnitConfigs[u].pressure_mode = "absolute" \/ m >= 0 THEN m ELSE 0]]
 
+\* Two-branch point isotherms with hysteresis: the adsorption branch is generated with one enthalpy, the desorption branch
+\* (stored from the highest pressure downwards) with another; the analysis of branch b must return the enthalpy built into b
+BranchPairs == << <<20, 35>>, <<40, 10>>, <<5, 60>> >>              \* <<dH of the adsorption branch, dH of the desorption branch>>
+BranchDH(pair, b) == IF b = "ads" THEN pair[1] ELSE pair[2]
+BranchScenarios ==
+   LET subs == SetToSeq(Subsets)
+   IN [p \in 1..Len(BranchPairs), s \in 1..Len(subs), g \in 1..3, b \in 1..2 |->
+         [pair |-> BranchPairs[p], temps |-> Ordered(subs[s], OrderKinds[((p + s + g) % 3) + 1]), gen |-> Generators[g],
+          branch |-> <<"ads", "des">>[b], dH |-> BranchDH(BranchPairs[p], <<"ads", "des">>[b])]]
+
 \* q: [dH : integer kJ/mol; kind; nreq : number of loading points requested; h : returned enthalpies (kJ/mol);
 \*     slopes : returned slopes of ln p against 1/T]
 IsoJudge(q) ==
